@@ -15,6 +15,7 @@ from sim import bootstrap as B
 from sim import primitives as P
 from sim import runner as R
 from sim import shims, trace
+from models import seqref as SR
 
 ID = "C06"
 ENGINE = "threadsim"
@@ -59,9 +60,21 @@ def lane_setup():
     from basilisp.lang import vector as vec
     _st["vec"] = vec
     for n in ("cons", "first", "rest", "next", "seq", "count", "nth", "map", "filter", "concat", "iterate",
-              "iterator-seq", "realized?", "take", "doall", "vec", "drop", "take-while", "keep"):
+              "iterator-seq", "realized?", "take", "doall", "vec", "drop", "take-while", "keep", "remove", "mapcat",
+              "interleave", "map-indexed", "keep-indexed", "drop-while", "take-nth", "partition", "partition-all",
+              "partition-by", "distinct", "dedupe", "interpose", "cycle", "drop-last", "flatten", "repeatedly"):
         _fns[n] = common.core_fn(n)
-    trace.register_lisp_ns(common.core_ns(), ["map", "filter", "iterate", "take", "drop", "take-while", "keep"], "core.lpy")
+    # lazy-cat is a macro: one helper compiled by the real compiler per lane
+    import basilisp.lang.runtime as rt
+    from basilisp.lang import compiler, reader
+    ctx = compiler.CompilerContext("<verif-c06>")
+    with rt.ns_bindings("basilisp.user") as ns:
+        for form in reader.read_str("(basilisp.core/fn [a b] (basilisp.core/lazy-cat a b))"):
+            _fns["lazy-cat*"] = compiler.compile_and_exec_form(form, ctx, ns)
+    trace.register_lisp_ns(common.core_ns(), ["map", "filter", "iterate", "take", "drop", "take-while", "keep",
+                                              "keep-indexed", "drop-while", "take-nth", "partition", "partition-all",
+                                              "partition-by", "distinct", "dedupe", "interpose", "interleave", "cycle",
+                                              "repeatedly", "flatten"], "core.lpy")
 
 
 def preflight():
@@ -78,12 +91,14 @@ def preflight():
 # ------------------------------------------------------------------ generation
 
 OPS = ["first", "first", "rest", "rest", "next", "seq", "count", "nth", "iterall", "realized?"]
+STAGES_OLD = ["map", "filter", "concat", "take", "drop", "take-while", "map2", "keep"]
+STAGES_ALL = sorted(SR.STAGES)
 
 
 def gen(rng, tier, index):
     n = rng.choice([2, 3, 4, 5, 6, 8])
     faults = rng.random() < 0.5
-    source = rng.choice(["lazy", "lazy", "lazy", "iterator", "iterate"])
+    source = rng.choice(["lazy", "lazy", "lazy", "lazy", "iterator", "iterate", "repeatedly"])
     cells = []
     for i in range(n + 1):
         c = {"sleep": 0, "throw_first": False, "touch": None, "points": rng.choice([1, 2])}
@@ -98,20 +113,25 @@ def gen(rng, tier, index):
             elif r < 0.2 and i + 1 <= n:
                 c["touch"] = rng.randrange(i + 1, n + 1)
         cells.append(c)
-    if faults and source in ("iterator", "iterate"):
+    if faults and source in ("iterator", "iterate", "repeatedly"):
         for c in cells:
             if rng.random() < 0.2:
                 c["sleep"] = 0.01
         if source == "iterator" and rng.random() < 0.3:
             cells[rng.randrange(n)]["throw_first"] = True
-    stages = ["map", "filter", "concat", "map", "filter", "concat", "take", "drop", "take-while", "map2", "keep"]
-    pipeline = rng.choice([[], [], [rng.choice(stages)], [rng.choice(stages)], [rng.choice(stages), rng.choice(stages)]])
+    depth = rng.choice([0, 0, 1, 1, 1, 2, 2, 3])
+    pipeline = []
+    for d in range(depth):
+        s_ = rng.choice(STAGES_OLD if rng.random() < 0.4 else STAGES_ALL)
+        if s_ in SR.LAST_ONLY and d != depth - 1:
+            s_ = rng.choice(STAGES_OLD)
+        pipeline.append(s_)
     consumers = []
     for _ in range(rng.choice([2, 2, 3])):
         ops = []
         for _ in range(rng.choice([1, 2, 3, 4, 5])):
             o = rng.choice(OPS)
-            if source == "iterate" and o in ("count", "iterall"):
+            if source in ("iterate",) and o in ("count", "iterall"):
                 o = "first"           # the reference stream is a finite prefix of an infinite one
             ops.append([o, rng.randrange(0, 3)] if o == "nth" else [o])
         consumers.append(ops)
@@ -179,12 +199,16 @@ def nontrivial(rec):
 def describe():
     return {
         "rule": "workload = source of 2-8 instrumented cells (lazy-seq producers that yield, sleep, throw on first call, "
-                "touch themselves or a later cell; or a single-use Python iterator; or iterate f) under a pipeline of 0-2 "
-                "stages from map/filter/concat/take/drop/take-while/keep/two-collection map, walked by 2-3 consumer threads with scripts of first/rest/next/seq/count/"
+                "touch themselves or a later cell; or a single-use Python iterator; or iterate f; or repeatedly n f) under a pipeline of 0-3 "
+                "stages from map/filter/remove/concat (suffix, prefix, lazy-cat)/take/drop/take-while/drop-while/keep/two-collection map/"
+                "mapcat/interleave/map-indexed/keep-indexed/take-nth/interpose/distinct/dedupe/drop-last/cycle/flatten/"
+                "partition (with and without step)/partition-all/partition-by, walked by 2-3 consumer threads with scripts of first/rest/next/seq/count/"
                 "nth/iterate-all/realized?. Non-trivial = more than one hand-off AND (a cell's native mutex was contended "
                 "OR an injected fault fired); distinct = distinct (switch signature, workload).",
         "real": ["rust LazySeq/Cons/Sequence/SeqIterator/to_seq (built from /repo/rust at this tree)", "basilisp.lang.seq",
-                 "core.lpy lazy-seq map filter concat iterate iterator-seq first rest next seq count nth",
+                 "core.lpy lazy-seq lazy-cat map filter remove concat iterate repeatedly iterator-seq take drop take-while drop-while keep mapcat "
+                 "interleave map-indexed keep-indexed take-nth interpose distinct dedupe drop-last cycle flatten partition "
+                 "partition-all partition-by first rest next seq count nth",
                  "runtime.concat_from_seq", "parking_lot ReentrantMutex (try_lock path)", "real OS threads"],
         "stub": ["blocking slow path of the cell mutex (replaced by kernel.spin through the guarded hook)",
                  "OS scheduler", "clock"],
@@ -196,97 +220,49 @@ def describe():
 
 
 # ------------------------------------------------------------------ reference
-
-def _pred(x):
-    return x % 20 == 0
-
-
-TAKE_K = 3
-DROP_K = 2
-MAP2_VEC = [100, 200, 300, 400]
-
-
-def _tw(x):
-    return x < 45
-
-
-def _keepf(x):
-    return None if x % 30 == 10 else x + 2
-
-
-def _stage_ref(stage, inp):
-    if stage == "map":
-        return [x + 1 for x in inp]
-    if stage == "filter":
-        return [x for x in inp if _pred(x)]
-    if stage == "concat":
-        return list(inp) + [9000, 9010]
-    if stage == "take":
-        return list(inp[:TAKE_K])
-    if stage == "drop":
-        return list(inp[DROP_K:])
-    if stage == "take-while":
-        out = []
-        for x in inp:
-            if not _tw(x):
-                break
-            out.append(x)
-        return out
-    if stage == "map2":
-        return [a + b for a, b in zip(inp, MAP2_VEC)]
-    if stage == "keep":
-        return [_keepf(x) for x in inp if _keepf(x) is not None]
-    raise ValueError(stage)
-
-
-def _stage_need(stage, inp, j):
-    """Input index that must be available (len(inp) = 'the end must have been seen') for output index j."""
-    n = len(inp)
-    if stage == "map":
-        return min(j, n)
-    if stage == "filter":
-        idx = [i for i, x in enumerate(inp) if _pred(x)]
-        return idx[j] if j < len(idx) else n
-    if stage == "keep":
-        idx = [i for i, x in enumerate(inp) if _keepf(x) is not None]
-        return idx[j] if j < len(idx) else n
-    if stage == "concat":
-        return j if j < n else n
-    if stage == "take":
-        # cell k of (take k s) answers "empty" without touching s
-        return min(j, TAKE_K - 1, n)
-    if stage == "drop":
-        return min(j + DROP_K, n)
-    if stage == "take-while":
-        ref = _stage_ref(stage, inp)
-        return j if j < len(ref) else min(len(ref), n)
-    if stage == "map2":
-        return min(j, len(MAP2_VEC), n)
-    raise ValueError(stage)
-
+# models/seqref.py holds one minimal-pull generator per stage; element values and the demand table both
+# derive from it.
 
 def reference(workload):
     n = workload["n"]
     src = [10 * i for i in range(n)]
     streams = [src]
     for s in workload["pipeline"]:
-        streams.append(_stage_ref(s, streams[-1]))
+        streams.append(SR.ref(s, streams[-1]))
     return streams
 
 
-def source_need(workload, streams, j):
-    for s, inp in zip(reversed(workload["pipeline"]), reversed(streams[:-1])):
-        j = _stage_need(s, inp, j)
+def need_tables(workload, streams):
+    return [SR.need_table(s, inp) for s, inp in zip(workload["pipeline"], streams[:-1])]
+
+
+def source_need(workload, tables, j):
+    """Largest source index that output index j of the whole pipeline may require."""
+    for s, t in zip(reversed(workload["pipeline"]), reversed(tables)):
+        touched = j >= 0
+        j = SR.need(t, j)
+        if touched and s in SR.CREATE_NEED:
+            j = max(j, SR.CREATE_NEED[s])      # the stage is created when its first cell is asked for
     return min(j, workload["n"])
 
 
 # ------------------------------------------------------------------ execution
+
+def _plainv(x):
+    """Elements of partition-like stages are sequences: compare them as lists (walking them is part of the op)."""
+    if x is None or isinstance(x, (int, str)):
+        return x
+    if hasattr(x, "__iter__"):
+        return [_plainv(e) for e in x]
+    return x
+
 
 def run(workload, k):
     lseq = _st["lseq"]
     n = workload["n"]
     cells_cfg = workload["cells"]
     streams = reference(workload)
+    tables = need_tables(workload, streams)
     Rf = streams[-1]
     source = workload["source"]
     st = {"calls": [0] * (n + 1), "active": [0] * (n + 1), "ok_returns": [0] * (n + 1), "events": [],
@@ -309,7 +285,7 @@ def run(workload, k):
             viol(f"{ID}/producer-concurrent", {"cell": i})
         if st["ok_returns"][i] > 0:
             viol(f"{ID}/producer-rerun-after-success", {"cell": i, "call": nth})
-        need = source_need(workload, streams, st["demand"]) if st["demand"] >= 0 else -1
+        need = source_need(workload, tables, st["demand"]) if st["demand"] >= 0 else -1
         st["events"].append(("pstart", k.ev("pstart", i, nth), i, k.cur.name if k.cur else "?", st["demand"], need))
         return cfg, nth
 
@@ -376,6 +352,23 @@ def run(workload, k):
                 finally:
                     st["active"][min(i, n)] -= 1
         head = _fns["iterator-seq"](It())
+    elif source == "repeatedly":   # element i = the i-th call of f
+        rp = {"i": 0}
+
+        def rf():
+            i = rp["i"]
+            rp["i"] += 1
+            cfg, nth = on_produce(min(i, n))
+            try:
+                P.point("repeatedly-f")
+                if cfg["sleep"]:
+                    fault("producer_sleep")
+                    P.sleep(cfg["sleep"])
+                st["ok_returns"][min(i, n)] += 1
+                return 10 * i
+            finally:
+                st["active"][min(i, n)] -= 1
+        head = _fns["repeatedly"](n, rf)
     else:   # iterate: element i+1 = f(element i); "producer i+1" is the call f(10*i)
         def f(x):
             i = x // 10 + 1
@@ -394,53 +387,83 @@ def run(workload, k):
         st["ok_returns"][0] = 1
         head = _fns["take"](n, _fns["iterate"](f, 0))
 
-    def mk_mapf(si):
-        def mapf(x):
-            st["fcalls"][(f"map@{si}", x)] = st["fcalls"].get((f"map@{si}", x), 0) + 1
-            P.point("mapf")
-            return x + 1
-        return mapf
+    vector = _st["vec"].vector
+    once_ok = {}
+    for si, s in enumerate(workload["pipeline"]):
+        # at-most-once per element is bookkept by VALUE: only meaningful while the stage's input values are unique
+        inp_vals = [repr(v) for v in streams[si]]
+        once_ok[si] = s not in SR.FN_NOT_ONCE and len(set(inp_vals)) == len(inp_vals)
 
-    def mk_pred(si):
-        def pred(x):
-            st["fcalls"][(f"pred@{si}", x)] = st["fcalls"].get((f"pred@{si}", x), 0) + 1
-            P.point("pred")
-            return _pred(x)
-        return pred
-
-    def mk_fn(si, tag, fn):
-        def g(x):
-            st["fcalls"][(f"{tag}@{si}", x)] = st["fcalls"].get((f"{tag}@{si}", x), 0) + 1
+    def mk_fn(si, tag, fn, result=lambda r: r):
+        """Instrumented pipeline fn: counts calls per (stage, first argument) and is a preemption point."""
+        def g(*args):
+            key = (f"{tag}@{si}", args[-1] if tag in ("idx", "kidx") else args[0])
+            if once_ok[si]:
+                st["fcalls"][key] = st["fcalls"].get(key, 0) + 1
             P.point(tag)
-            return fn(x)
+            return result(fn(*args))
         return g
 
-    def mk_fn2(si):
-        def g(a, b):
-            st["fcalls"][(f"map2@{si}", a)] = st["fcalls"].get((f"map2@{si}", a), 0) + 1
-            P.point("map2")
-            return a + b
-        return g
+    def build(si, s, inp):
+        F = _fns
+        if s == "map":
+            return F["map"](mk_fn(si, "map", SR.mapf), inp)
+        if s == "filter":
+            return F["filter"](mk_fn(si, "pred", SR.pred), inp)
+        if s == "remove":
+            return F["remove"](mk_fn(si, "pred", SR.pred), inp)
+        if s == "concat":
+            return F["concat"](inp, list(SR.SUFFIX))
+        if s == "concat-pre":
+            return F["concat"](vector(SR.PREFIX), inp)
+        if s == "lazy-cat":
+            return F["lazy-cat*"](inp, vector(SR.SUFFIX))
+        if s == "take":
+            return F["take"](SR.TAKE_K, inp)
+        if s == "drop":
+            return F["drop"](SR.DROP_K, inp)
+        if s == "take-while":
+            return F["take-while"](mk_fn(si, "tw", SR.tw), inp)
+        if s == "drop-while":
+            return F["drop-while"](mk_fn(si, "dw", SR.dw), inp)
+        if s == "map2":
+            return F["map"](mk_fn(si, "map2", lambda a, b: a + b), inp, vector(SR.MAP2_VEC))
+        if s == "keep":
+            return F["keep"](mk_fn(si, "keep", SR.keepf), inp)
+        if s == "mapcat":
+            return lseq.LazySeq(lambda: F["mapcat"](mk_fn(si, "cat", SR.catf, vector), inp))
+        if s == "interleave":
+            return F["interleave"](inp, vector(SR.ILV_VEC))
+        if s == "map-indexed":
+            return F["map-indexed"](mk_fn(si, "idx", SR.idxf), inp)
+        if s == "keep-indexed":
+            return F["keep-indexed"](mk_fn(si, "kidx", SR.kidxf), inp)
+        if s == "take-nth":
+            return F["take-nth"](SR.NTH, inp)
+        if s == "interpose":
+            return F["interpose"](SR.SEP, inp)
+        if s == "distinct":
+            return F["distinct"](F["map"](mk_fn(si, "q", SR.quant), inp))
+        if s == "dedupe":
+            return F["dedupe"](F["map"](mk_fn(si, "q", SR.quant), inp))
+        if s == "drop-last":
+            return F["drop-last"](SR.DROPLAST_N, inp)
+        if s == "cycle":
+            return F["take"](SR.CYCLE_TAKE, lseq.LazySeq(lambda: F["cycle"](inp)))
+        if s == "partition":
+            return F["partition"](SR.PART_N, inp)
+        if s == "partition-step":
+            return F["partition"](SR.PART_N, SR.PART_STEP, inp)
+        if s == "partition-all":
+            return F["partition-all"](SR.PART_N, inp)
+        if s == "partition-by":
+            return F["partition-by"](mk_fn(si, "pb", SR.pbf), inp)
+        if s == "flatten":
+            return F["flatten"](inp)
+        raise ValueError(s)
 
     for si, s in enumerate(workload["pipeline"]):
-        if s == "map":
-            head = _fns["map"](mk_mapf(si), head)
-        elif s == "filter":
-            head = _fns["filter"](mk_pred(si), head)
-        elif s == "concat":
-            head = _fns["concat"](head, [9000, 9010])
-        elif s == "take":
-            head = _fns["take"](TAKE_K, head)
-        elif s == "drop":
-            head = _fns["drop"](DROP_K, head)
-        elif s == "take-while":
-            head = _fns["take-while"](mk_fn(si, "tw", _tw), head)
-        elif s == "map2":
-            head = _fns["map"](mk_fn2(si), head, _st["vec"].vector(MAP2_VEC))
-        elif s == "keep":
-            head = _fns["keep"](mk_fn(si, "keep", _keepf), head)
-        else:
-            raise ValueError(s)
+        head = build(si, s, head)
 
     ops_log = []
 
@@ -468,7 +491,7 @@ def run(workload, k):
                 new_cur = cur
                 try:
                     if kind == "first":
-                        got = _fns["first"](cur)
+                        got = _plainv(_fns["first"](cur))
                     elif kind == "seq":
                         got = _fns["seq"](cur) is None
                     elif kind == "rest":
@@ -480,9 +503,9 @@ def run(workload, k):
                     elif kind == "count":
                         got = _fns["count"](cur)
                     elif kind == "nth":
-                        got = _fns["nth"](cur, op[1], "NF")
+                        got = _plainv(_fns["nth"](cur, op[1], "NF"))
                     elif kind == "iterall":
-                        got = list(iter(cur)) if cur is not None else []
+                        got = [_plainv(e) for e in iter(cur)] if cur is not None else []
                     else:
                         got = "skip" if cur is None or not hasattr(cur, "is_realized") else bool(cur.is_realized)
                     res = ("ok", got)
